@@ -284,8 +284,9 @@ macro_rules! exists_type {
 #[macro_export]
 macro_rules! visible_trait {
     ($($scope:ident)::+ , $name:ident) => {{
+        // not Sync / not Send: entrait's blanket impls (`EntraitT: Sync + 'static`) must not apply to the marker
         #[allow(dead_code, non_camel_case_types)]
-        struct __M;
+        struct __M(::core::marker::PhantomData<*const ()>);
         #[allow(dead_code, non_camel_case_types)]
         trait $name { fn __vrt_is_fallback(&self) -> bool { true } }
         impl $name for __M {}
@@ -295,6 +296,19 @@ macro_rules! visible_trait {
             // if the glob brought in a trait `Name`, then `__M: Name` refers to that
             // trait and does not hold; otherwise it refers to the fallback.
             !$crate::implements!(__M: $name)
+        }
+    }};
+    // traits with one type parameter (e.g. the delegation-target trait `TraitImpl<T>`)
+    ($($scope:ident)::+ , $name:ident, generic) => {{
+        #[allow(dead_code, non_camel_case_types)]
+        struct __M(::core::marker::PhantomData<*const ()>);
+        #[allow(dead_code, non_camel_case_types)]
+        trait $name<__G> { fn __vrt_is_fallback(&self) -> bool { true } }
+        impl $name<()> for __M {}
+        {
+            #[allow(unused_imports)]
+            use $($scope)::+::*;
+            !$crate::implements!(__M: $name<()>)
         }
     }};
 }
